@@ -137,6 +137,14 @@ CHECKS.update({
         design="3/C19"),
 })
 
+CHECKS.update({
+    "C16": dict(
+        technique="property-based testing: one metamorphic relation per configuration option between an 'off' and an 'on' generation (byte comparison after undoing the option's own renaming; behavioural comparison through decode/encode and request kwargs)",
+        text="A deterministic sweep (every option with each of its value shapes on a fixed reference-rich document) plus Hypothesis-generated documents with one option at a time: name and version overrides, class_overrides, field_prefix, use_path_prefixes_for_title_model_names, literal_enums, docstrings_on_attributes, generate_all_tags, content_type_overrides (bare/parameterised/upper-case/unparseable keys, request and response side), --meta, --file-encoding, --custom-template-path and post_hooks each have to satisfy their documented relation and change nothing else.",
+        note="sets of files allowed to change are computed from the IR; wire behaviour compared via from_dict/to_dict outcomes and the kwargs of scalar-argument endpoints",
+        design="3/C16"),
+})
+
 NOT_YET = {}
 
 def main():
